@@ -55,7 +55,7 @@ def c41(c):
         return c.finish(rule="stopped after the first failing stage")
 
     # 3. coin sets: simulated deep histories over 4 denominations (accumulating amounts)
-    num = 400 if thorough else 40
+    num = 200 if thorough else 40
     res = vf.run_tlc(SPEC, "MCCoins", "MCCoins_sim.cfg", c.scratch, workers=8,
                      simulate=dict(num=num, depth=26), seed=c.seed, timeout=1800, tag="sim")
     if not res.ok:
